@@ -39,6 +39,7 @@ deriving Repr, DecidableEq
 structure Inst where
   key : Nat
   samples : List Nat
+  registered : Bool := true   -- cleared by unregister_instance; the entry (with its samples) stays
 deriving Repr, DecidableEq
 
 /-- an ALIVE CacheChange in the RTPS writer history -/
@@ -47,6 +48,7 @@ structure Change where
   key : Nat
   val : Int
   ts : Int
+  alive : Bool := true        -- false: the NOT_ALIVE_(DISPOSED_)UNREGISTERED change of unregister_instance (key only)
 deriving Repr, DecidableEq
 
 /-- RtpsReaderProxy (reader_proxy.rs:84) with its HeartbeatMachine -/
@@ -319,14 +321,34 @@ def expiredAtWrite (q : Qos) (ts now : Int) : Bool :=
   | none => false
   | some l => decide (ts - now + l ≤ 0)
 
-/-- the instance list after the registration step -/
+/-- DataWriterEntity::is_registered: an entry with that handle exists and its flag is set -/
+def isReg (insts : List Inst) (k : Nat) : Bool :=
+  match findInst k insts with
+  | some i => i.registered
+  | none => false
+
+def instRegistered (i : Inst) : Bool := i.registered
+/-- number of registered instances (has_room_for_new_instance counts only these) -/
+def regCount (insts : List Inst) : Nat := (insts.filter instRegistered).length
+
+/-- set the flag of the first entry with that handle -/
+def setReg (k : Nat) : List Inst → List Inst
+  | [] => []
+  | i :: is => if i.key = k then { i with registered := true } :: is else i :: setReg k is
+
+/-- DataWriterEntity::mark_registered: the entry of the handle (kept with its samples by an earlier unregister) is
+    re-used, otherwise a new empty one is appended; the flag is set -/
 def regInsts (insts : List Inst) (k : Nat) : List Inst :=
-  if (findInst k insts).isSome then insts else insts ++ [{ key := k, samples := [] }]
+  if (findInst k insts).isSome then setReg k insts else insts ++ [{ key := k, samples := [], registered := true }]
+
+/-- the registration step of the pinned commit (no `registered` flag yet): regression witness of D25 only -/
+def regInstsAsIs (insts : List Inst) (k : Nat) : List Inst :=
+  if (findInst k insts).isSome then insts else insts ++ [{ key := k, samples := [], registered := true }]
 
 /-- DataWriterEntity::write_w_timestamp (data_writer_entity.rs) with the repair of D25 (fixes/D25.patch): the three
     resource limits are checked first, the instance is registered only when the write is accepted -/
 def entWrite (s : St) (k : Nat) (v : Int) (ts now : Int) : St × Reply × List Dgram :=
-  if !(findInst k s.insts).isSome && !(ltLen s.insts.length s.qos.maxInstances) then (s, .outOfResources, [])
+  if !(isReg s.insts k) && !(ltLen (regCount s.insts) s.qos.maxInstances) then (s, .outOfResources, [])
   else if spiHit s.qos s.insts k || samplesHit s.qos s.insts then (s, .outOfResources, [])
   else if expiredAtWrite s.qos ts now then
     ({ s with lastSn := s.lastSn + 1, insts := pushSample k (s.lastSn + 1) (regInsts s.insts k) }, .ok, [])
@@ -341,14 +363,14 @@ def entWrite (s : St) (k : Nat) (v : Int) (ts now : Int) : St × Reply × List D
     regression witness of D25 (Props/C19Writer.lean); not used by the driver. -/
 def entWriteAsIs (s : St) (k : Nat) (v : Int) (ts now : Int) : St × Reply × List Dgram :=
   if !(findInst k s.insts).isSome && !(ltLen s.insts.length s.qos.maxInstances) then (s, .outOfResources, [])
-  else if spiHit s.qos (regInsts s.insts k) k || samplesHit s.qos (regInsts s.insts k) then
-    ({ s with insts := regInsts s.insts k }, .outOfResources, [])
+  else if spiHit s.qos (regInstsAsIs s.insts k) k || samplesHit s.qos (regInstsAsIs s.insts k) then
+    ({ s with insts := regInstsAsIs s.insts k }, .outOfResources, [])
   else if expiredAtWrite s.qos ts now then
-    ({ s with lastSn := s.lastSn + 1, insts := pushSample k (s.lastSn + 1) (regInsts s.insts k) }, .ok, [])
+    ({ s with lastSn := s.lastSn + 1, insts := pushSample k (s.lastSn + 1) (regInstsAsIs s.insts k) }, .ok, [])
   else
-    ((addChange { s with lastSn := s.lastSn + 1, insts := pushSample k (s.lastSn + 1) (regInsts s.insts k) }
+    ((addChange { s with lastSn := s.lastSn + 1, insts := pushSample k (s.lastSn + 1) (regInstsAsIs s.insts k) }
         { sn := s.lastSn + 1, key := k, val := v, ts := ts } now).1, .ok,
-     (addChange { s with lastSn := s.lastSn + 1, insts := pushSample k (s.lastSn + 1) (regInsts s.insts k) }
+     (addChange { s with lastSn := s.lastSn + 1, insts := pushSample k (s.lastSn + 1) (regInstsAsIs s.insts k) }
         { sn := s.lastSn + 1, key := k, val := v, ts := ts } now).2)
 
 /-- the oldest sample of the instance when the instance holds exactly `depth` samples (writer_methods.rs:358-368) -/
@@ -491,8 +513,29 @@ def matchReader (s : St) (rid : Nat) (reliable transientLocal : Bool) : St :=
       if s.proxies.any (proxyIdEq rid) then s.proxies
       else s.proxies ++ [newProxy rid reliable (if transientLocal then 0 else hbLast s.changes)] }
 
-/-- lookup_instance (writer_methods.rs:290-294) -/
-def lookup (s : St) (k : Nat) : Bool := (findInst k s.insts).isSome
+/-- lookup_instance (writer_methods.rs): `is_registered` -/
+def lookup (s : St) (k : Nat) : Bool := isReg s.insts k
+
+/-- clear the flag of the first entry with that handle -/
+def clearReg (k : Nat) : List Inst → List Inst
+  | [] => []
+  | i :: is => if i.key = k then { i with registered := false } :: is else i :: clearReg k is
+
+/-- unregister_instance (data_writer_entity.rs unregister_w_timestamp) for a keyed topic and an enabled writer:
+    an unknown / already unregistered instance answers BadParameter (`false`); otherwise the flag is cleared - the
+    entry and its sample deque stay - and a key-only NOT_ALIVE change with the next sequence number is added to the
+    RTPS history and sent -/
+def unregisterW (s : St) (k : Nat) (ts now : Int) : St × Bool × List Dgram :=
+  if isReg s.insts k then
+    ((addChange { s with insts := clearReg k s.insts, lastSn := s.lastSn + 1 }
+        { sn := s.lastSn + 1, key := k, val := 0, ts := ts, alive := false } now).1, true,
+     (addChange { s with insts := clearReg k s.insts, lastSn := s.lastSn + 1 }
+        { sn := s.lastSn + 1, key := k, val := 0, ts := ts, alive := false } now).2)
+  else (s, false, [])
+
+/-- remove_stale_writer_samples of the PARTICIPANT (discovery_methods.rs:465): every user writer of every publisher,
+    whatever the lifespan of the writers before it -/
+def purgeWriters (ws : List St) (now : Int) : List St := ws.map (fun w => removeStale w now)
 
 -- ------------------------------------------------------------------------------------------- event interface
 
@@ -502,6 +545,7 @@ inductive Ev
   | acknack (rid base : Nat) (set : List Nat) (count : Nat) (now : Int)  -- a datagram with an ACKNACK
   | tick (now : Int)                                                -- the per-iteration part of the worker loop
   | matchReader (rid : Nat) (reliable transientLocal : Bool)        -- discovery matched a reader
+  | unregister (k : Nat) (ts now : Int)                             -- an `unregister_instance_w_timestamp` mail
 deriving Repr
 
 def Ev.now : Ev → Option Int
@@ -509,6 +553,7 @@ def Ev.now : Ev → Option Int
   | .acknack _ _ _ _ n => some n
   | .tick n => some n
   | .matchReader _ _ _ => none
+  | .unregister _ _ n => some n
 
 /-- one event, as the worker of /repo main handles it: remove_stale_writer_samples runs BEFORE a mail is handled
     (domain_participant_factory.rs, repair 5f97ba4 / D34), then the handler; a worker iteration is `tick` -/
@@ -517,6 +562,9 @@ def step (s : St) : Ev → St × Out
   | .acknack rid base set count now => onAcknack (removeStale s now) rid base set count now
   | .tick now => tick s now
   | .matchReader rid rel tl => (matchReader s rid rel tl, Out.none)
+  | .unregister k ts now =>
+    ((unregisterW (removeStale s now) k ts now).1,
+     { dgrams := (unregisterW (removeStale s now) k ts now).2.2, reply := none, evicted := [] })
 
 /-- the same event handled by the worker BEFORE the repair of D34 (pinned commit): the mail is handled on the
     history as it is, the purge only comes with the per-iteration part. Regression witness only. -/
@@ -525,6 +573,8 @@ def stepAsIs (s : St) : Ev → St × Out
   | .acknack rid base set count now => onAcknack s rid base set count now
   | .tick now => tick s now
   | .matchReader rid rel tl => (matchReader s rid rel tl, Out.none)
+  | .unregister k ts now =>
+    ((unregisterW s k ts now).1, { dgrams := (unregisterW s k ts now).2.2, reply := none, evicted := [] })
 
 def run (s : St) : List Ev → St
   | [] => s
